@@ -53,16 +53,12 @@ def parse_params(
     """
     if signature is None:
         return
-    argnum = -1
     # Iterate over function's params.
-    for param_name in signature.parameters:
+    for argnum, param_name in enumerate(signature.parameters):
         # If parameter doesn't have an annotation.
         annot = type_hints.get(param_name)
         if annot is None:
             continue
-        # Increment argument numbers. This is
-        # for positional arguments.
-        argnum += 1
         # Value from incoming message.
         value = None
         logger.debug("Trying to parse %s as %s", param_name, annot)
